@@ -506,6 +506,8 @@ class InstanceDecoder(Encoding):
                         # the end.
                         cur_item[cut_dimension] = \
                             item_size_in_dim - cut_position
+                        # The area that we cut away is gone.
+                        current_area -= cut_position * item_size_in_other_dim
                         break  # we cut one item and can stop
 
                 sel_i = ((((sel_i + sel_dir) % cur_n_items) + cur_n_items)
